@@ -22,11 +22,10 @@ Theorem C14_step_impl_error_atomic_refuted :
 Proof. exact step_impl_error_not_atomic_proof. Qed.
 Print Assumptions C14_step_impl_error_atomic_refuted.
 
-(* the implementation agrees with the specification on every statement that neither fails during execution
-   nor inserts into the table it reads *)
+(* the implementation agrees with the specification on every statement that does not fail during execution
+   (an INSERT reading its own target included, since commit 2e9960218) *)
 Theorem C14_step_impl_agrees : forall o st u s,
   fails_at_runtime s = false ->
-  (forall se, nth_error st u = Some se -> is_self_insert se s = false) ->
   step_impl o st u s = Catalog.step st u s.
 Proof. exact step_impl_agrees_proof. Qed.
 Print Assumptions C14_step_impl_agrees.
@@ -70,10 +69,12 @@ Print Assumptions C14_view_sees_current_base.
 (* ---------------------------------------------------------------- storage *)
 
 (* n appender partitions in any interleaving (flushes under the mutex whenever a local segment reaches
-   segment_size chunks, and at finalize), all finalized; then a parallel scan with any p >= 1 scan states in
-   any interleaving, run until every state is exhausted: the scan returns the table's previous rows and
-   every appended row exactly once *)
+   segment_size chunks, and at finalize), all finalized; then a COLLECTION-level parallel scan (no segment
+   limit) with any p >= 1 scan states in any interleaving, run until every state is exhausted: the scan returns
+   the previous rows and every appended row exactly once.  (Segments are never empty: `flush` drops a segment
+   of zero rows — Lemma run_nonempty — so the hypothesis on sg holds for every reachable table.) *)
 Theorem C14_append_scan_exactly_once : forall k sg n ls1 c1 p ls2 c2,
+  0 < cap k -> 0 < ocap k -> Forall (fun g => g <> []) sg ->
   run k (writers sg n) ls1 = Some c1 -> all_finalized c1 = true ->
   1 <= p -> run k (start_scan p c1) ls2 = Some c2 -> all_done c2 = true ->
   Permutation (scan_output c2) (concat sg ++ appended ls1).
@@ -86,26 +87,72 @@ Theorem C14_insert_count_is_rows_appended : forall k sg n ls c,
 Proof. exact insert_count_proof. Qed.
 Print Assumptions C14_insert_count_is_rows_appended.
 
-(* `INSERT INTO t SELECT * FROM t` reads the table as of statement start:
-     forall k sg p ls c, run k (self_insert sg p) ls = Some c -> complete c = true ->
-                         Permutation (added (length sg) c) (concat sg)
-   REFUTED by a schedule: partition 0 flushes a segment before partition 1 has fetched its first index *)
-Theorem C14_insert_select_snapshot_refuted :
-  exists k sg p ls c, run k (self_insert sg p) ls = Some c /\ complete c = true /\
+(* TABLE scan (DataTable::init_parallel_scan_states, limit = number of segments at creation): for ANY label
+   sequence ls — scan calls of the p states interleaved with appends, flushes and finalizes of any appender,
+   of the same statement or not — once every scan state is exhausted the scan has returned exactly the rows
+   the table held when the scan states were created, each once *)
+Theorem C14_table_scan_snapshot : forall k c p ls c',
+  0 < cap k -> 0 < ocap k -> Forall (fun g => g <> []) (segs c) -> 1 <= p ->
+  run k (start_table_scan p c) ls = Some c' -> all_done c' = true ->
+  Permutation (scan_output c') (all_rows c).
+Proof. exact table_scan_snapshot_proof. Qed.
+Print Assumptions C14_table_scan_snapshot.
+
+(* `INSERT INTO t SELECT * FROM t` reads the table as of statement start: with any number p >= 1 of partitions
+   and any interleaving of the partitions' actions, a completed statement has added exactly the rows present at
+   its start *)
+Theorem C14_insert_select_snapshot : forall k sg p ls c,
+  0 < cap k -> 0 < ocap k -> Forall (fun g => g <> []) sg -> 1 <= p ->
+  forallb is_stmt_label ls = true ->
+  run k (self_insert sg p) ls = Some c -> complete c = true ->
+  Permutation (added (length sg) c) (concat sg).
+Proof. exact insert_select_snapshot_proof. Qed.
+Print Assumptions C14_insert_select_snapshot.
+
+(* termination measure: measure R L c = (R+1) * (p + L - counter) + rows of the current segments not yet emitted
+   + scan states not exhausted + appenders not finalized (R rows in L segments at statement start); every action
+   of the statement strictly decreases it *)
+Theorem C14_stmt_step_decreases : forall k SG c l c',
+  0 < cap k -> 0 < ocap k -> Forall (fun g => g <> []) SG -> scan_inv k SG c ->
+  is_stmt_label l = true -> step k c l = Some c' ->
+  measure (length (concat SG)) (length SG) c' < measure (length (concat SG)) (length SG) c.
+Proof. exact stmt_step_decreases_proof. Qed.
+Print Assumptions C14_stmt_step_decreases.
+
+(* hence the self-reading INSERT terminates: no run of the statement has more than (R+1)*L + 2p steps *)
+Theorem C14_self_insert_terminates : forall k sg p ls c,
+  0 < cap k -> 0 < ocap k -> Forall (fun g => g <> []) sg ->
+  forallb is_stmt_label ls = true -> run k (self_insert sg p) ls = Some c ->
+  length ls <= S (length (concat sg)) * length sg + 2 * p.
+Proof. exact self_insert_terminates_proof. Qed.
+Print Assumptions C14_self_insert_terminates.
+
+(* ---- the table scan as it was before commit 2e9960218 (`Old.self_insert`: no segment limit).  Kept as
+   lemmas about the old definition: the witness schedules of the two repaired defects *)
+Theorem C14_old_insert_select_snapshot_refuted :
+  exists k sg p ls c, run k (Old.self_insert sg p) ls = Some c /\ complete c = true /\
     ~ Permutation (added (length sg) c) (concat sg).
-Proof. exact insert_select_snapshot_refuted_proof. Qed.
-Print Assumptions C14_insert_select_snapshot_refuted.
+Proof. exact old_insert_select_snapshot_refuted_proof. Qed.
+Print Assumptions C14_old_insert_select_snapshot_refuted.
 
-(* the number of rows inserted by the same statement on the same table depends on the schedule *)
-Theorem C14_insert_select_schedule_dependent :
+Theorem C14_old_insert_select_schedule_dependent :
   exists k sg p ls1 ls2 c1 c2,
-    run k (self_insert sg p) ls1 = Some c1 /\ complete c1 = true /\
-    run k (self_insert sg p) ls2 = Some c2 /\ complete c2 = true /\
+    run k (Old.self_insert sg p) ls1 = Some c1 /\ complete c1 = true /\
+    run k (Old.self_insert sg p) ls2 = Some c2 /\ complete c2 = true /\
     length (added (length sg) c1) = 4 /\ length (added (length sg) c2) = 2 /\ length (concat sg) = 2.
-Proof. exact insert_select_schedule_dependent_proof. Qed.
-Print Assumptions C14_insert_select_schedule_dependent.
+Proof. exact old_insert_select_schedule_dependent_proof. Qed.
+Print Assumptions C14_old_insert_select_schedule_dependent.
 
-(* a statement that stops before finalize (fails) after a flush leaves the flushed rows visible:
+(* bounded non-termination witness of the old definition: one partition, a table of one full segment; after
+   200 scan calls the statement is still running and the table has grown 50-fold *)
+Theorem C14_old_self_insert_growth_witness :
+  exists c, run kw (Old.self_insert [[1%N; 2%N]] 1) (repeat (LPipe 0) 200) = Some c /\ complete c = false /\
+            100 <= length (all_rows c).
+Proof. exact old_self_insert_growth_witness_proof. Qed.
+Print Assumptions C14_old_self_insert_growth_witness.
+
+(* ---- not repaired: a statement that stops before finalize (fails) after a flush leaves the flushed rows
+   visible:
      forall k sg n ls c, run k (writers sg n) ls = Some c -> all_finalized c = false -> all_rows c = concat sg
    REFUTED *)
 Theorem C14_storage_error_atomic_refuted :
@@ -120,12 +167,3 @@ Theorem C14_no_flush_below_threshold_partial : forall k c i b c',
   segs c' = segs c.
 Proof. exact no_flush_below_threshold. Qed.
 Print Assumptions C14_no_flush_below_threshold_partial.
-
-(* non-termination witness (closed, bounded): one partition, a table of one full segment; after 200 scan calls
-   the statement is still running and the table has grown 50-fold.  The unbounded statement
-   (forall n, the run of n scan calls exists and is not complete) is not proved. *)
-Theorem C14_self_insert_growth_witness_partial :
-  exists c, run kw (self_insert [[1%N; 2%N]] 1) (repeat (LPipe 0) 200) = Some c /\ complete c = false /\
-            100 <= length (all_rows c).
-Proof. exact self_insert_growth_witness_proof. Qed.
-Print Assumptions C14_self_insert_growth_witness_partial.
